@@ -25,8 +25,8 @@ theorem decNext_append (m : Nat) (he ho b1 b2 : List α) (h1 : he.length = m - 1
   simp only [decNext, evens_append _ _ hb, odds_append _ _ hb, ← List.append_assoc]
   rw [lastN_lastN_append _ _ _ (by simp [h1]), lastN_lastN_append _ _ _ (by simp [h2])]
 
-theorem decSpec_nil (o : Ops α) (taps he ho : List α) : decSpec o taps he ho [] = [] := by
-  simp [decSpec]
+theorem decSpec_nil (o : Ops α) (taps he ho : List α) : hbfDecSpec o taps he ho [] = [] := by
+  simp [hbfDecSpec]
 
 /-- feed a list of blocks one after the other to a block processor `proc`; returns the final state and the list
     of returned output blocks -/
@@ -59,7 +59,7 @@ theorem HbfDec.process_blockMax (o : Ops α) (d : HbfDec α) (wf : d.WF) (x : Li
 
 theorem HbfDec.run_spec (o : Ops α) (d : HbfDec α) (wf : d.WF) (bs : List (List α))
     (adm : ∀ b ∈ bs, d.Adm b) :
-    (d.run o bs).2.flatten = decSpec o d.odd.taps d.abs.1 d.abs.2 bs.flatten ∧
+    (d.run o bs).2.flatten = hbfDecSpec o d.odd.taps d.abs.1 d.abs.2 bs.flatten ∧
     (d.run o bs).1.abs = decNext d.odd.taps.length d.abs.1 d.abs.2 bs.flatten ∧
     (d.run o bs).1.WF ∧ (d.run o bs).1.odd.taps = d.odd.taps ∧ (d.run o bs).1.blockMax = d.blockMax ∧
     (d.run o bs).2.map List.length = bs.map (fun b => b.length / 2) := by
@@ -96,8 +96,8 @@ theorem intNext_append (m : Nat) (h b1 b2 : List α) (h1 : h.length = 2 * m - 1)
   simp only [intNext, ← List.append_assoc]
   rw [lastN_lastN_append _ _ _ (by simp [h1])]
 
-theorem intSpec_nil (o : Ops α) (taps h : List α) : intSpec o taps h [] = [] := by
-  cases hw : List.map (firTap o taps) (windows (2 * taps.length) (h ++ [])) <;> simp [intSpec, interleave]
+theorem intSpec_nil (o : Ops α) (taps h : List α) : hbfIntSpec o taps h [] = [] := by
+  cases hw : List.map (firTap o taps) (windows (2 * taps.length) (h ++ [])) <;> simp [hbfIntSpec, interleave]
 
 /-- feed a list of input blocks one after the other to `HbfInt::process_block` -/
 def HbfInt.run (o : Ops α) (d : HbfInt α) (bs : List (List α)) : HbfInt α × List (List α) :=
@@ -120,7 +120,7 @@ theorem HbfInt.process_blockMax (o : Ops α) (d : HbfInt α) (wf : d.WF) (x : Li
 
 theorem HbfInt.run_spec (o : Ops α) (d : HbfInt α) (wf : d.WF) (bs : List (List α))
     (adm : ∀ b ∈ bs, d.Adm b) :
-    (d.run o bs).2.flatten = intSpec o d.fir.taps d.abs bs.flatten ∧
+    (d.run o bs).2.flatten = hbfIntSpec o d.fir.taps d.abs bs.flatten ∧
     (d.run o bs).1.abs = intNext d.fir.taps.length d.abs bs.flatten ∧
     (d.run o bs).1.WF ∧ (d.run o bs).1.fir.taps = d.fir.taps ∧ (d.run o bs).1.blockMax = d.blockMax ∧
     (d.run o bs).2.map List.length = bs.map (fun b => 2 * b.length) := by
